@@ -238,7 +238,7 @@ size_t ecpSubAA_deep(size_t n, size_t f_deep);
 	\pre a \in f && p \equiv 3 (\mod 4) && A != 0 && B != 0.
 	\expect Описание ec корректно.
 	\expect B -- квадратичный вычет по модулю p. Если это условие 
-	нарушается, то точка b не будет лежать на ec для a \in {0, p - 1}.
+	нарушается, то точка b не будет лежать на ec для a \in {0, 1, p - 1}.
 	\remark Реализован алгоритм SWU в редакции СТБ 34.101.66.
 	\deep{stack} ecpSWU_deep(ec->f->n, ec->f->deep).
 */
